@@ -25,6 +25,8 @@ def run(ctx):
     ws += wlfam.directed_trees(rng)
     wfiles, wcells, wleaves = wlfam.run_scenarios(ctx, ws, "c06w")
     wverd, wdec = wlfam.validate(ctx, wfiles)
+    if (cdec < max(5, ccells // 4) or wdec < max(5, wcells // 5)) and not ctx.violations:
+        raise vlib.Undecided("too few cells gave an exact distribution: %d/%d character, %d/%d wordlist" % (cdec, ccells, wdec, wcells))
     ctx.evaluations = cleaves + wleaves
     ctx.nontrivial = cdec + wdec
     ctx.cover.update(char_cells=ccells, char_leaves=cleaves, char_cells_decided=cdec, wl_cells=wcells, wl_leaves=wleaves, wl_cells_decided=wdec)
